@@ -231,6 +231,12 @@ def r3_fixpoints(ctx):
                     guards.append(cur.test)
                 cur = getattr(cur, '_parent', None)
             fix = False
+            # names the incremented object is computed from (first_fiber = find_first_node(network, fiber) -> fiber)
+            origin = {objname} if objname else set()
+            for _, v in local_defs(f.node).get(objname, []):
+                if isinstance(v, ast.Call):
+                    origin |= {a.id for a in v.args if isinstance(a, ast.Name)}
+            origin -= {f.params[0]}
             for t in guards:
                 roots = derives(f.node, t, stop=f.params)
                 txt = ast.unparse(t)
@@ -239,7 +245,7 @@ def r3_fixpoints(ctx):
                     fix = True
                 for nm in names_in(t):
                     for _, v in local_defs(f.node).get(nm, []):
-                        if isinstance(v, ast.Call) and any(isinstance(a, ast.Name) and a.id in (objname, 'fiber') for a in v.args) \
+                        if isinstance(v, ast.Call) and any(isinstance(a, ast.Name) and a.id in origin for a in v.args) \
                                 and 'loss' in ast.unparse(v.func):
                             fix = True
             ctx.check('R3.fix-point', site(f, node), fix, f'{f.qual}|increment|{tgt.attr}',
